@@ -9,6 +9,9 @@ def _c14_case(c):
     if p[0] == "M":
         # M <n> <events...>: re-run the schedule on the real Merge
         return {"kind": "M", "case": {"n": int(p[1]), "script": p[2:], "seed": 1}}
+    if p[0] == "X" and p[-1].startswith("J"):
+        # projected line of an end-to-end run: the last token is the whole case with its schedule
+        return {"kind": "E", "case": _json.loads(bytes.fromhex(p[-1][1:]).decode("utf-8"))}
     if p[0] == "K":
         return {"kind": "M", "case": {"caps": [ch == "1" for ch in p[1]]}}
     return {"raw": c}
